@@ -151,21 +151,34 @@ def run_property(pid, spec, tier, seed, t0):
     transient = 0
     confirmed = []
     dropped = set()
+    confirmed_classes, reruns, surplus = set(), 0, 0
     for f in tot.oracle_fail:
         v = f.get("verdict", "")
         if f.get("kind", "").startswith("e2e") or not (v.startswith("fail:hang") or v.startswith("fail:process died") or v.startswith("fail:alloc")):
             confirmed.append(f)
             continue
+        # at most five such cases are re-run (each costs up to 3 x 10 s); once one is confirmed the others of its class
+        # add nothing to the verdict and are dropped unexamined, so a change that makes hundreds of cases hang is
+        # reported in minutes, not hours
+        cls = C.verdict_class(v)
+        if cls in confirmed_classes or reruns >= 5:
+            dropped.add((f["kind"], f["session"][-1]))
+            surplus += 1
+            continue
+        reruns += 1
         again = 0
         for _ in range(3):
             try:
                 go = C.run_go(f["kind"], f["session"], watchdog_ms=10000, extra_env=f.get("env"))
                 if go[-1] is not None and go[-1][1].startswith("fail"):
                     again += 1
+                else:
+                    break
             except Exception:
                 again += 1
         if again == 3:
             confirmed.append(f)
+            confirmed_classes.add(cls)
         else:
             transient += 1
             dropped.add((f["kind"], f["session"][-1]))
@@ -265,7 +278,7 @@ def run_property(pid, spec, tier, seed, t0):
         "compared_with_model": tot.compared, "disagreements": len(tot.disagreements),
         "oracle_ok": tot.oracle_ok, "oracle_fail": len(fails), "known_findings_hit": sorted(known_hits),
         "per_kind": per_kind, "broken": broken, "search_mode_cases": searched,
-        "transient_timeouts_not_confirmed": transient, "transient_disagreements_not_reproduced": transient_dis,
+        "transient_timeouts_not_confirmed": transient, "timeout_cases_beyond_the_first_confirmed": surplus, "transient_disagreements_not_reproduced": transient_dis,
     }
     if spec.get("exhaustive"):
         cov["exhaustive"] = True
